@@ -105,6 +105,8 @@ def run_case(seed, tier, rec, st):
         tg = TypeGen(fam, rng, dc_config_fn=config_fn, mixins=(mixin_src, "DataClassDictMixin"))
         maxd = 2 if tier == "quick" else rng.choice([1, 2, 3, 3])
         inner = tg.type(rng.randint(0, maxd))
+        if tg.allow_field_engine and tg.allow_named and rng.random() < 0.03:
+            inner = tg.nt_engine_dataclass()          # NamedTuple engine lattice (Config option x field option x position)
         wname = tg.fresh("W")
         wcfg = config_fn(rng)
         wcfg.pop("_aliases", None)
